@@ -24,3 +24,13 @@ PROPS = {
         "explanation": "update_is_arc proved for all 2^16 x 2^8 transitions by XOR-linearity plus vm_compute on the basis axes over the table extracted from the current source; fold/partition/reset/residue by induction; correspondence by rows against the real updateByte.",
     },
 }
+
+
+# further properties are configured by one JSON file each under tools/props.d/
+import glob as _glob
+import json as _json
+import os as _os
+
+for _f in sorted(_glob.glob(_os.path.join(_os.path.dirname(_os.path.abspath(__file__)), "props.d", "*.json"))):
+    _pid = _os.path.splitext(_os.path.basename(_f))[0]
+    PROPS[_pid] = _json.load(open(_f))
